@@ -27,14 +27,19 @@ Pick == /\ ~done /\ Len(chosen) < Limit(fn)
              /\ (IF chosen = <<>> THEN TRUE ELSE chosen[Len(chosen)].i < i)
              /\ (IF vc \in {"true", "false"} THEN P[fn].kws[i].bool ELSE TRUE) /\ (IF vc = "zero" THEN P[fn].kws[i].int ELSE TRUE)
              /\ (IF vc \in {"empty", "hostile"} THEN ~P[fn].kws[i].bool /\ ~P[fn].kws[i].int ELSE TRUE)
-             /\ chosen' = Append(chosen, [i |-> i, vc |-> vc])
+             \* a "valid" value: any of the values the keyword's type allows (all literals of an enumerated keyword)
+             \* (in combinations only the first keyword ranges over all of them)
+             /\ \E j \in 1..(IF vc = "valid" /\ chosen = <<>> THEN Len(P[fn].kws[i].valids) ELSE 1) :
+                  chosen' = Append(chosen, [i |-> i, vc |-> vc, j |-> j])
         /\ UNCHANGED <<fn, done>>
 Stop == ~done /\ done' = TRUE /\ UNCHANGED <<fn, chosen>>
 Next == Pick \/ Stop
 Spec == Init /\ [][Next]_vars
-Pairs == [n \in 1..Len(chosen) |-> [kw |-> P[fn].kws[chosen[n].i], vclass |-> chosen[n].vc, valid |-> P[fn].kws[chosen[n].i].valid]]
+ValidOf(c) == P[fn].kws[c.i].valids[c.j]
+Pairs == [n \in 1..Len(chosen) |-> [kw |-> P[fn].kws[chosen[n].i], vclass |-> chosen[n].vc, valid |-> ValidOf(chosen[n])]]
 EmitLine ==
-  done => PrintT("REPLAY " \o ToJson([ fn |-> fn, set |-> [n \in 1..Len(chosen) |-> [kw |-> P[fn].kws[chosen[n].i].name, vc |-> chosen[n].vc]],
+  done => PrintT("REPLAY " \o ToJson([ fn |-> fn, set |-> [n \in 1..Len(chosen) |-> [kw |-> P[fn].kws[chosen[n].i].name, vc |-> chosen[n].vc,
+                                                                           lit |-> IF chosen[n].vc = "valid" THEN ValidOf(chosen[n]) ELSE <<>>]],
                                         argv |-> ExtendArgs(P[fn].base, Pairs) ]))
 TableInv == TableOk
 =============================================================================
